@@ -93,3 +93,43 @@ def replay_amax(args, model):
     bad = (alpha >= amax and np.any(scp > 1e-12)) or (alpha < amax * (1 - 1e-9) and not np.any(scp > 0))
     return dict(confirmed=bool(bad), detail=f'alpha={alpha} alpha_max={amax} scores at 0 (penalised)={scp.tolist()}',
                 inputs=dict(vals, g=g.tolist()))
+
+
+def group_amax_task(T):
+    """_alpha_max_group_lasso(X, y, grp_indices, grp_ptr, weights) against WeightedGroupL2.subdiff_distance at w = 0 with the gradient
+    of the quadratic datafit at the null model, on the non-contiguous layout groups {2,0},{1}: alpha >= alpha_max <=> all scores 0"""
+    import z3
+    from pv import sym, symrun
+    from pv.sproof import check_contract, zpre
+    from .c06 import Env
+    from .catalog import objarr
+    symrun.install()
+    # layout where the POSITIONS of a group inside grp_indices differ, as a set, from its feature indices
+    GP, GI = np.array([0, 2, 3], dtype=np.int32), np.array([2, 0, 1], dtype=np.int32)
+    fn = symrun.get('skglm.utils.data', '_alpha_max_group_lasso')
+    WG = symrun.get('skglm.penalties.block_separable', 'WeightedGroupL2')
+    n, p = 1, 3
+    e = Env(n, p)
+    R = sym.SymReal
+    a = z3.Real('alpha')
+    wt = [z3.Real('wt0'), z3.Real('wt1')]
+    pre = zpre([a > 0, wt[0] > 0, wt[1] > 0])
+    L = sym.lift
+
+    def run():
+        X, y = e.symX(), e.sym(e.y)
+        W = objarr([R(wt[0]), R(wt[1])])
+        amax = fn(X, y, GI, GP, W)
+        grad = np.array([-(X[0, j] * y[0]) / n for j in (2, 0, 1)], dtype=object)      # stacked in working-set order (0, 1)
+        sc = WG(R(a), W, GP, GI, False).subdiff_distance(np.array([0., 0., 0.], dtype=object), grad, np.array([0, 1]))
+        return amax, sc
+
+    def post(out, pth):
+        amax, sc = out
+        am = L(amax)
+        return [('above=>null-is-stationary', [a >= am], z3.And(L(sc[0]) == 0, L(sc[1]) == 0)),
+                ('below=>null-is-not-stationary', [a < am], z3.Or(L(sc[0]) > 0, L(sc[1]) > 0))]
+    check_contract(T, 'alpha_max~subdiff_distance', run, pre, post, strength='B')
+
+
+add_task('C16', 'utils.data:_alpha_max_group_lasso', group_amax_task, strength='B')
